@@ -87,9 +87,9 @@ RuleDBAdd(s, start, ends, rule, isver) ==
       stopAll(qq, ls) == IF ls = {} THEN qq ELSE LET x == CHOOSE y \in ls : TRUE IN stopAll(Q!SetStop(qq, x), ls \ {x})
       sorted == SortSeq(keep, LAMBDA a, b : a < b)
       r == [s |-> start, e |-> sorted, tw |-> (rule.tw /\ Len(sorted) = 1)]
-  IN IF sorted = <<start>> THEN [s EXCEPT !.empt = em2, !.q = stopAll(s.q, dropped)]     \* `if ends == [start]: return`
-     ELSE
-     [s EXCEPT !.empt = em2, !.q = stopAll(s.q, dropped),
+  \* (the code's `if ends == [start]: return` compares a tuple with a list and never fires: a rule whose cleaned children
+  \* are just the parent itself is stored like any other; modelled as the code behaves)
+  IN [s EXCEPT !.empt = em2, !.q = stopAll(s.q, dropped),
                !.rules = IF r.tw THEN (@ \ {x \in @ : ~x.tw /\ ((x.s = r.s /\ x.e = r.e) \/ (x.s = r.e[1] /\ x.e = <<r.s>>))}) \cup {r}
                          ELSE IF \E x \in @ : x.s = r.s /\ x.e = r.e /\ x.tw THEN @ ELSE @ \cup {r},
                !.marks = IF isver THEN @ \cup {start} ELSE @]
